@@ -47,7 +47,8 @@ def concurrent(ctx, nhist, batch=1000, screened=0):
         rec = ctx.path("kbhist_%d.ndjson" % b)
         p = c.vh(["kbstress", "--n", k, "--seed", ctx.seed * 1000 + b, "--out", rec] + (["--screen", 1] if scr else []), timeout=3600)
         if p.returncode != 0:
-            raise c.ToolError("kbstress failed: " + p.stderr[-500:])
+            c.recorder_failed(ctx, "kbstress", p, "kb-concurrent")
+            continue
         info = json.loads(p.stdout.strip().splitlines()[-1])
         overlapping += info["overlapping"]
         if scr:
